@@ -76,7 +76,7 @@ Definition parse_start : parser pstate :=
   pbind (parse_game_start sizes br) (fun '(br2, st) =>
   let ports := port_occupancy st in
   ret {| ps_sizes := sizes; ps_bytes_read := br2; ps_split_raw := []; ps_split_actual := 0;
-         ps_port_idx := port_indexes ports; ps_layout := layout_of (st_version st); ps_start := st; ps_end := None;
+         ps_layout := layout_of (st_version st); ps_start := st; ps_end := None;
          ps_frames := frames_new (st_version st) ports; ps_meta := None; ps_gecko := None; ps_quirk := None |})).
 
 (* parse_event: one event from the stream; returns the (possibly substituted) code *)
@@ -95,12 +95,12 @@ Definition parse_event (s : pstate) : parser (N * pstate) :=
 
 Definition set_meta (s : pstate) (m : utree) : pstate :=
   {| ps_sizes := ps_sizes s; ps_bytes_read := ps_bytes_read s; ps_split_raw := ps_split_raw s;
-     ps_split_actual := ps_split_actual s; ps_port_idx := ps_port_idx s; ps_layout := ps_layout s; ps_start := ps_start s;
+     ps_split_actual := ps_split_actual s; ps_layout := ps_layout s; ps_start := ps_start s;
      ps_end := ps_end s; ps_frames := ps_frames s; ps_meta := Some m; ps_gecko := ps_gecko s; ps_quirk := ps_quirk s |}.
 
 Definition set_quirk (s : pstate) : pstate :=
   {| ps_sizes := ps_sizes s; ps_bytes_read := ps_bytes_read s; ps_split_raw := ps_split_raw s;
-     ps_split_actual := ps_split_actual s; ps_port_idx := ps_port_idx s; ps_layout := ps_layout s; ps_start := ps_start s;
+     ps_split_actual := ps_split_actual s; ps_layout := ps_layout s; ps_start := ps_start s;
      ps_end := ps_end s; ps_frames := ps_frames s; ps_meta := ps_meta s; ps_gecko := ps_gecko s; ps_quirk := Some true |}.
 
 (* parse_metadata: the caller has consumed the 'U' *)
